@@ -91,6 +91,7 @@ def run_exec_suite(R, ctx, name, gens, nprog, corpus, what, keys=None, maxlen=40
         d = dict(mismatches=mism, unknown=unk, seconds=secs, summary=dict(positive=str(pos_total)))
     else:
         obs, d, crashes, se = judge(binary, lines, events=events, cluster=cluster)
+    core.negative_control(R, obs[:60000], "exec/" + name, skip=lambda l: not l.startswith("X ") or " => " not in l, group=True)
     dist = collections.Counter(cmd_of(l) for l in obs if l.startswith("X"))
     errs = sum(1 for l in obs if " => " in l and l.split(" => ")[1].split()[2:3] and l.split(" => ")[1].split()[2].startswith("2d"))
     distinct = len(set(l.split(" => ")[0].split(" ", 2)[2] for l in obs if l.startswith("X") and len(l.split(" => ")[0].split(" ", 2)) > 2))
